@@ -115,7 +115,9 @@ _ao = _Source().classes['LogicalFile'].methods['add_origin']['plain']
 _AO_PARAMS = {a.arg: 'none' for a in _ao.args.args[1:]}
 _AO_PARAMS.update({'name': 'str', 'origin_reference': 'int?'})
 CONTRACTS['LogicalFile.add_origin[first-origin-back-fill]'] = dict(
-    target='LogicalFile.add_origin', props=['C07', 'C09'],
+    target='LogicalFile.add_origin', props=['C07', 'C09', 'C20', 'C18'],
+    # C20: a rejected add_origin (the constructor raises) must not have handed out its reference to the waiting objects
+    exc_modifies=[],
     self_fields={'physical_file': {'cls': 'DLISFile', 'fields': {'_eflr_sets': {'cls': 'EFLRSetsDict', 'fields': {'__store__': 'clsdict{}'}}}},
                  '_eflr_sets': {'cls': 'EFLRSetsDict', 'fields': {'__store__': 'clsdict{ZoneSet:namedict{None:obj:WBackSet}}', 'origins_value': {'list': [_NEWO]}}},
                  'file_header_item': {'cls': 'FileHeaderItem', 'fields': {'header_id': 'str', '_origin_reference': 'none'}}},
@@ -145,3 +147,12 @@ _c['self_fields']['physical_file'] = {'cls': 'DLISFile', 'fields': {'_eflr_sets'
 _c['ensures'] = [('objects-of-other-logical-files-keep-their-missing-origin@C18',
                   "self.physical_file._eflr_sets[ZoneSet]['OTHER']._eflr_item_list[0]._origin_reference is None")]
 CONTRACTS['LogicalFile.add_origin[back-fill-stays-in-the-logical-file]'] = _c
+
+# C14: looking at the specification must not change it.  Asking for the objects of a set type that has no set yet used to register
+# the type in the registry (indexing a defaultdict), which gave later sets of that type an earlier place in the file (fixed: F16).
+CONTRACTS['EFLRSetsDict.get_all_items_for_set_type[type-without-sets]'] = dict(
+    target='EFLRSetsDict.get_all_items_for_set_type', props=['C14', 'C09'],
+    self_fields={'__store__': 'clsdict{AxisSet:namedict{None:obj:WZSet1}}'},
+    params={'eflr_set_type': 'cls:ZoneSet'}, returns='none',
+    ensures=[('no-objects', '__out__ == ()'), ('the-look-up-registers-nothing', 'len(self) == 1')],
+    modifies=[])
